@@ -108,6 +108,7 @@ class WorldJob(object):
                       'real_crash_crosschecks': 0, 'subprocess_crosschecks': 0, 'visits': 0, 'twin_visits': 0}
         self.probes = {}
         self.flag_discriminated = {}
+        self.force_real_crash = False
         self.digest = hashlib.sha256()
         self.entry = fresh_main_entry()
 
@@ -535,7 +536,10 @@ class WorldJob(object):
                         fired['ev'], fired['kind'], sink, _b(got, 40), _b(inflight['before'], 40), _b(inflight['after'], 40)), run_desc,
                         key=dict(fkey, file_role='inflight-write-target'))
             # nothing may be visited after the fault
-            later = [e for e in rec['events'] if e['s'] > fault_sq and e['c'] in ('open_r', 'open_w', 'scandir')]
+            own = (inflight.get('input'), inflight.get('sink'))
+            later = [e for e in rec['events'] if e['s'] > fault_sq and e['c'] in ('open_r', 'open_w', 'scandir')
+                     and not (e.get('rp') in own and e['c'] != 'scandir') and not (e.get('rp') is not None and e['rp'] not in pre)]
+            # (re-opening the file in flight - e.g. to put the original back - or a temporary of its own is not "going on")
             if later:
                 self.vio('C15', 'R5', 'the run went on after fault %s:%s: %s' % (fired['ev'], fired['kind'], [(e['c'], e.get('rp')) for e in later[:3]]),
                          run_desc, key=dict(fkey, what='continued-after-fault'))
@@ -710,18 +714,35 @@ class WorldJob(object):
             desc = {'env': env0, 'faults': plan, 'restart': do_restart}
             if only is not None and only.get('faults') != plan:
                 continue
-            pre1, rec1, post1 = self.run_once(env0, plan)
+            is_crash = 'crash' in plan[0]['kind']
+            nv0 = len(self.violations)
+            if is_crash and self.force_real_crash:
+                # an earlier cross-check in this world showed that the simulated crash is not faithful for this
+                # implementation (cleanup code ran that process death would not run): crash plans use real process death
+                pre1, rec1, post1 = self.run_once(env0, plan, real_crash=True)
+                self.stats['real_crash_only_plans'] = self.stats.get('real_crash_only_plans', 0) + 1
+            else:
+                pre1, rec1, post1 = self.run_once(env0, plan)
             if not rec1['fired']:
                 continue
             t1 = self.judge(pre1, rec1, post1, env0, desc, faulty=True)
             self.fault_probes(rec1, t0)
-            if i in real_set:
+            if i in real_set and not self.force_real_crash:
                 pre2, rec2, post2 = self.run_once(env0, plan, real_crash=True)
                 self.stats['real_crash_crosschecks'] += 1
                 same_old = all(post1.get(k) == post2.get(k) for k in pre1)
-                if not same_old or not rec2['crashed']:
-                    self.notes.append('HARNESS real crash and simulated crash disagree for %r (crashed=%s)' % (plan, rec2['crashed']))
+                if not rec2['crashed']:
+                    self.notes.append('HARNESS real-crash execution did not die at the crash point for %r' % (plan,))
                     self.stats['real_crash_mismatch'] = self.stats.get('real_crash_mismatch', 0) + 1
+                elif not same_old:
+                    # the command runs code on the way out of a simulated crash (finally / except BaseException) that a
+                    # dead process never runs.  Real process death is the truth: re-judge this plan on the real outcome
+                    # and use real crashes for the rest of this world.
+                    self.stats['sim_crash_unfaithful'] = self.stats.get('sim_crash_unfaithful', 0) + 1
+                    self.force_real_crash = True
+                    del self.violations[nv0:]
+                    pre1, rec1, post1 = pre2, rec2, post2
+                    t1 = self.judge(pre1, rec1, post1, env0, desc, faulty=True)
             if do_restart:
                 # restart on the surviving tree, no faults; judged as a fresh fault-free run from that state
                 self.stats['restarts'] += 1
